@@ -1,9 +1,10 @@
 GROUP = {
     # `emit` + `emit_core` with NO cargo features (no_std, no alloc)
     "stub_sets": [],
-    "kani_args": ["-Z", "stubbing"],
+    # assertion reach checks off (measured 2.5x faster): vacuity is guarded by kani::cover! in every harness and by the mutant twins
+    "kani_args": ["-Z", "stubbing", "--no-assertion-reach-checks"],
     # value-bag's cast visitor is (mutually) recursive through its internal representation; values in
     # these harnesses are flat primitives / ids, so two levels suffice. Unwinding assertions stay on.
     "recursion_caps": [(r"value_bag::internal::cast.*CastVisitor.*::fill", 3)],
-    "modules": ["util", "env", "c05_span", "c15_ids", "c17_level", "c03_frames", "c04_trace", "c19_capture"],
+    "modules": ["util", "env", "c05_span", "c15_ids", "c17_level", "c03_frames", "c04_trace", "c19_capture", "c01_macro", "c02_macro"],
 }
